@@ -117,6 +117,8 @@ OneWinner == Settled => Cardinality({d \in D : ren[d] = 0}) = 1
 AllAnnounced == <>(\A d \in D : ph[d] = "announced")
 (* with two claimants the loser takes the first renamed name                 *)
 TwoClaimants == (Cardinality(D) = 2 /\ Settled) => {ren[d] : d \in D} = {0, 1}
-(* a daemon that lost a tiebreak does not send a probe again before the back-off is over: it sees the winner's     *)
-(* announcement or defence and renames instead of fighting on                                                        *)
+(* A daemon that lost a tiebreak does not send a probe again before the back-off is over (by construction: next1 =  *)
+(* now + Backoff, counted from the iteration that read the winning probe, and a probe needs next1 <= now); by then   *)
+(* it has seen the winner's announcement or defence and renames instead of fighting on.  The code is held to this    *)
+(* step by the trace clause C08.backoff (TraceRespond.tla).                                                          *)
 =============================================================================
